@@ -267,7 +267,7 @@ def _wrappers(cx: Ctx, env, ty, depth, inner_fn):
             lit = gen(cx, env, (kind, tuple(tys)), depth - 1)
             call = cx.pick([f"{lit}", f"{lit}, {i_}={pos}", f"{lit}, {pos}"])
             return f"(lambda {t_}, {i_}={pos}: {t_}[{i_}])({call})"
-        if cfg.callable_fields and kind == "R" and cfg.dict_attr and cx.chance(2):
+        if cfg.callable_fields and kind == "R" and cfg.dict_attr and ty in (I, F, B) and cx.chance(2):
             # a field that holds a function, read by attribute and called on the spot: `{'f_a': <lambda>, ..}.f_a(x)`
             q_ = cx.fresh(env)
             body = gen(cx, bind(env, q_, I), ty, depth - 1)
